@@ -86,6 +86,8 @@ pub struct Interp<'p> {
 	pub trace: Vec<Rec>,
 	pub tpos: usize,
 	pub spec_marks: Vec<u64>,
+	/// undo log of writes to cells older than the innermost speculative branch (state merging)
+	pub spec_undo: Vec<Vec<(C, V)>>,
 	pub no_merge_sites: HashSet<usize>,
 	pub events: Vec<Event>,
 	pub params: HashMap<String, String>,
@@ -128,6 +130,7 @@ impl<'p> Interp<'p> {
 			trace: Vec::new(),
 			tpos: 0,
 			spec_marks: Vec::new(),
+			spec_undo: Vec::new(),
 			no_merge_sites: HashSet::new(),
 			events: Vec::new(),
 			params: HashMap::new(),
@@ -168,7 +171,9 @@ impl<'p> Interp<'p> {
 	pub fn write(&mut self, c: &C, v: V) -> R<()> {
 		if let Some(m) = self.spec_marks.last() {
 			if c.id < *m {
-				return Err(Ctl::Impure("write to a cell older than the speculative branch".into()));
+				// state merging: perform the write, remember how to undo it
+				let old = c.v.borrow().clone();
+				self.spec_undo.last_mut().unwrap().push((c.clone(), old));
 			}
 		}
 		*c.v.borrow_mut() = v;
@@ -524,10 +529,12 @@ impl<'p> Interp<'p> {
 		Ok(())
 	}
 
-	/// evaluate f under the extra assumption c without side effects on older state
-	pub fn speculate<X>(&mut self, c: T, f: &mut dyn FnMut(&mut Self) -> R<X>) -> R<X> {
+	/// evaluate f under the extra assumption c; writes to older cells are undone afterwards and returned
+	/// as (cell, final value) pairs so that the caller can merge them
+	pub fn speculate_w<X>(&mut self, c: T, f: &mut dyn FnMut(&mut Self) -> R<X>) -> R<(X, Vec<(C, V)>)> {
 		let mark = self.next_cell;
 		self.spec_marks.push(mark);
+		self.spec_undo.push(Vec::new());
 		{
 			let sol = self.sol.as_mut().unwrap();
 			sol.temp_push();
@@ -542,13 +549,55 @@ impl<'p> Interp<'p> {
 		}
 		self.sol.as_mut().unwrap().temp_pop();
 		self.spec_marks.pop();
+		let log = self.spec_undo.pop().unwrap();
+		// final values of the written cells, then undo in reverse order
+		let mut writes: Vec<(C, V)> = Vec::new();
+		for (cell, _) in log.iter() {
+			if !writes.iter().any(|(c2, _)| Rc::ptr_eq(c2, cell)) {
+				let cur = cell.v.borrow().clone();
+				writes.push((cell.clone(), cur));
+			}
+		}
+		for (cell, old) in log.into_iter().rev() {
+			*cell.v.borrow_mut() = old;
+		}
 		match r {
+			Ok(x) => Ok((x, writes)),
 			Err(Ctl::Panic(m)) => Err(Ctl::Impure(format!("panic in speculative branch: {}", m))),
 			Err(Ctl::UB(m)) => Err(Ctl::Impure(format!("UB in speculative branch: {}", m))),
 			Err(Ctl::Return(_)) => Err(Ctl::Impure("return in speculative branch".into())),
 			Err(Ctl::Break) | Err(Ctl::Continue) => Err(Ctl::Impure("break/continue in speculative branch".into())),
-			o => o,
+			Err(e) => Err(e),
 		}
+	}
+	/// pure speculation (no writes allowed to survive): used where a merge of side effects is not wanted
+	pub fn speculate<X>(&mut self, c: T, f: &mut dyn FnMut(&mut Self) -> R<X>) -> R<X> {
+		let (x, w) = self.speculate_w(c, f)?;
+		if !w.is_empty() {
+			return Err(Ctl::Impure("write to a cell older than the speculative branch".into()));
+		}
+		Ok(x)
+	}
+	/// apply the merged writes of two speculative sides: cell := ite(c, value on side 1, value on side 2)
+	pub fn apply_merged_writes(&mut self, c: T, w1: Vec<(C, V)>, w2: Vec<(C, V)>) -> R<()> {
+		let mut cells: Vec<C> = Vec::new();
+		for (cell, _) in w1.iter().chain(w2.iter()) {
+			if !cells.iter().any(|c2| Rc::ptr_eq(c2, cell)) {
+				cells.push(cell.clone());
+			}
+		}
+		let mut merged: Vec<(C, V)> = Vec::new();
+		for cell in cells {
+			let old = cell.v.borrow().clone();
+			let a = w1.iter().find(|(c2, _)| Rc::ptr_eq(c2, &cell)).map(|(_, v)| v.clone()).unwrap_or_else(|| old.clone());
+			let b = w2.iter().find(|(c2, _)| Rc::ptr_eq(c2, &cell)).map(|(_, v)| v.clone()).unwrap_or_else(|| old.clone());
+			let m = self.merge(c, a, b)?;
+			merged.push((cell, m));
+		}
+		for (cell, m) in merged {
+			self.write(&cell, m)?;
+		}
+		Ok(())
 	}
 
 	/// two-way choice on a symbolic condition: merge if both sides are pure, otherwise fork
@@ -556,18 +605,32 @@ impl<'p> Interp<'p> {
 		let nc = self.tm.not(c);
 		let merged = self.spec_unit(site, &mut |s: &mut Self| {
 			// a side whose guard contradicts the path condition simply does not exist
-			let v1 = match s.speculate(c, f1) {
+			let v1 = match s.speculate_w(c, f1) {
 				Err(Ctl::Infeasible) => None,
 				r => Some(r?),
 			};
-			let v2 = match s.speculate(nc, f2) {
+			let v2 = match s.speculate_w(nc, f2) {
 				Err(Ctl::Infeasible) => None,
 				r => Some(r?),
 			};
 			match (v1, v2) {
-				(Some(a), Some(b)) => s.merge(c, a, b),
-				(Some(a), None) => Ok(a),
-				(None, Some(b)) => Ok(b),
+				(Some((a, wa)), Some((b, wb))) => {
+					let v = s.merge(c, a, b)?;
+					s.apply_merged_writes(c, wa, wb)?;
+					Ok(v)
+				}
+				(Some((a, wa)), None) => {
+					for (cell, val) in wa {
+						s.write(&cell, val)?;
+					}
+					Ok(a)
+				}
+				(None, Some((b, wb))) => {
+					for (cell, val) in wb {
+						s.write(&cell, val)?;
+					}
+					Ok(b)
+				}
 				(None, None) => Err(Ctl::Infeasible),
 			}
 		})?;
